@@ -810,7 +810,7 @@ fn run_case(out: &mut Sink, seed: u64, case: usize) {
 /// not the tree's (so `block_until_zero` passes although a read transaction lives).  A transaction begun while sync n is
 /// in flight survives sync n+1; a page freed by sync n is reused by sync n+1; the transaction then reads a later state.
 fn ungated_demo(out: &mut Sink) {
-    let dir = PathBuf::from(format!("/dev/shm/nomt-verif-bttree-ungated-{}", std::process::id()));
+    let dir = PathBuf::from(format!("/dev/shm/nomt-verif-bttree-{}-ungated", std::process::id()));
     let _ = std::fs::remove_dir_all(&dir);
     std::fs::create_dir_all(&dir).unwrap();
     bt::TreeSim::create(&dir).unwrap();
@@ -858,7 +858,147 @@ fn ungated_demo(out: &mut Sink) {
     let _ = std::fs::remove_dir_all(&dir);
 }
 
+
+/// `find_key_pos` / `search_branch` on hand-built bottom-level branch nodes (the real `BranchNodeBuilder`): `pc` separators
+/// that share a prefix of `pl` bits followed by separators that do not (`prefix_compressed < n`), probed with every
+/// separator, its neighbours, keys whose prefix is below / above the node's, and `low` overrides.
+fn node_unit(out: &mut Sink, rng: &mut Rng, tag: &str) {
+    use nomt::verif_api::{bit_ops, branch_node};
+    let pl = match rng.below(4) {
+        0 => 0,
+        1 => rng.range(1, 16),
+        2 => interesting_depth(rng).min(200),
+        _ => rng.range(1, 250),
+    };
+    let base = rng.bytes32();
+    let pc = rng.range(1, 7);
+    let mut comp: Vec<Key> = (0..pc).map(|_| with_prefix(rng, &base, pl)).collect();
+    if rng.chance(1, 3) {
+        // the shortest member: the prefix followed by zeros
+        let mut k = [0u8; 32];
+        for i in 0..pl {
+            set_bit(&mut k, i, bit(&base, i));
+        }
+        comp.push(k);
+    }
+    comp.sort();
+    comp.dedup();
+    let pc = comp.len();
+    // separators above the group that do not share the prefix: raise a zero bit inside the prefix
+    let mut extra: Vec<Key> = vec![];
+    let zero_bits: Vec<usize> = (0..pl).filter(|i| !bit(&base, *i)).collect();
+    if !zero_bits.is_empty() {
+        for _ in 0..rng.below(5) {
+            let d = *rng.pick(&zero_bits);
+            let mut k = with_prefix(rng, &base, d);
+            set_bit(&mut k, d, true);
+            extra.push(k);
+        }
+    }
+    extra.sort();
+    extra.dedup();
+    let keys: Vec<Key> = comp.iter().chain(extra.iter()).cloned().collect();
+    let n = keys.len();
+    let steps: Vec<branch_node::Step> =
+        keys.iter().enumerate().map(|(i, k)| branch_node::Step::Push(*k, bit_ops::separator_len(k), 100 + i as u32)).collect();
+    let page = std::panic::catch_unwind(|| branch_node::build(&[0u8; PAGE], n, pc, pl, None, &steps));
+    let Ok(mut page) = page else {
+        out.count("node_unit_builder_refused");
+        return;
+    };
+    page[0..4].copy_from_slice(&5u32.to_le_bytes());
+    out.count("node_unit");
+    if pc < n {
+        out.count("node_unit_pc_lt_n");
+    }
+    out.nontrivial(&format!("node {pl} {pc} {n} {}", hex(&keys[0])));
+    out.line(format!("node {}", hex(&page)), "ok".into());
+    let mut probes: Vec<Key> = vec![];
+    for k in &keys {
+        probes.push(*k);
+        let mut a = *k;
+        let mut b = *k;
+        for i in (0..32).rev() {
+            a[i] = a[i].wrapping_add(1);
+            if a[i] != 0 {
+                break;
+            }
+        }
+        for i in (0..32).rev() {
+            b[i] = b[i].wrapping_sub(1);
+            if b[i] != 0xff {
+                break;
+            }
+        }
+        probes.push(a);
+        probes.push(b);
+    }
+    for _ in 0..4 {
+        probes.push(rng.bytes32());
+        let d = rng.below(pl + 1);
+        probes.push(diverge_at(rng, &base, d.min(255)));
+    }
+    probes.push([0u8; 32]);
+    probes.push([0xffu8; 32]);
+    for k in probes {
+        let want = keys.iter().rposition(|s| *s <= k);
+        let sb = bt::search_branch(&page, k);
+        let imp = match &sb {
+            Ok(Some((i, pn))) => format!("some {i} {pn}"),
+            Ok(None) => "none".into(),
+            Err(e) => e.clone(),
+        };
+        let ok = match (&sb, want) {
+            (Ok(None), None) => true,
+            (Ok(Some((i, pn))), Some(w)) => *i == w && *pn == 100 + w as u32,
+            _ => false,
+        };
+        if !ok {
+            out.fail(format!("C16 bttree {tag}: search_branch on a node with prefix_len {pl}, prefix_compressed {pc}, n {n} for {} = {imp}, the separators say {:?}", hex(&k), want));
+        }
+        out.count("node_unit_search_branch");
+        out.line(format!("sbn {}", hex(&k)), imp);
+        let low = if rng.chance(1, 3) { Some(rng.below(want.map_or(0, |w| w + 1) + 1).min(n)) } else { None };
+        let fk = bt::find_key_pos(&page, k, low);
+        let imp = match &fk {
+            Ok((f, p)) => format!("{} {p}", if *f { 1 } else { 0 }),
+            Err(e) => e.clone(),
+        };
+        out.line(format!("fkn {} {}", hex(&k), low.map_or("-".into(), |l| l.to_string())), imp);
+    }
+}
+
+/// a case that does not end within two minutes is a hang of the code under test (e.g. a sync task that died while the
+/// controller waits for it): remove the scratch directories and leave with a non-zero exit code
+fn watchdog() -> std::sync::Arc<std::sync::atomic::AtomicU64> {
+    let beat = std::sync::Arc::new(std::sync::atomic::AtomicU64::new(0));
+    let b = beat.clone();
+    std::thread::spawn(move || {
+        let mut last = (0u64, std::time::Instant::now());
+        loop {
+            std::thread::sleep(std::time::Duration::from_millis(500));
+            let now = b.load(std::sync::atomic::Ordering::Relaxed);
+            if now != last.0 {
+                last = (now, std::time::Instant::now());
+            } else if last.1.elapsed() > std::time::Duration::from_secs(120) {
+                eprintln!("C15 bttree: case {} did not end within 120 s (hang)", now);
+                if let Ok(rd) = std::fs::read_dir("/dev/shm") {
+                    let prefix = format!("nomt-verif-bttree-{}-", std::process::id());
+                    for e in rd.flatten() {
+                        if e.file_name().to_string_lossy().starts_with(&prefix) {
+                            let _ = std::fs::remove_dir_all(e.path());
+                        }
+                    }
+                }
+                std::process::exit(3);
+            }
+        }
+    });
+    beat
+}
+
 pub fn run(seed: u64, cases: usize, out: &mut Sink) {
+    let beat = watchdog();
     let only: Option<usize> = std::env::var("VH_BTTREE_ONLY").ok().and_then(|s| s.parse().ok());
     if cases == 0 || only.is_none() {
         ungated_demo(out);
@@ -867,6 +1007,11 @@ pub fn run(seed: u64, cases: usize, out: &mut Sink) {
         if only.map_or(false, |o| o != case) {
             continue;
         }
+        beat.store(case as u64 + 1, std::sync::atomic::Ordering::Relaxed);
         run_case(out, seed, case);
+        let mut rng = Rng::new(seed ^ 0xB7EE ^ (case as u64) << 20);
+        for _ in 0..3 {
+            node_unit(out, &mut rng, &format!("seed={seed} case={case}"));
+        }
     }
 }
